@@ -94,6 +94,16 @@ def execute(case, clock, built, order_rots, pre=("none", "none")):
     return o
 
 
+def _exec_job(job):
+    n, v, c, seed = job
+    builts = [("se3", "se3"), ("pq", "pq"), ("se3", "pq"), ("pq", "se3")]
+    k = (n + v * 3 + seed) % len(geom.CLOCKS)
+    built = builts[(n + v + seed) % 4]
+    rots = geom.O24[(n + seed) % 24:] + geom.O24[:(n + seed) % 24]
+    pre = (PREREADS[(n // 4 + v) % 5], PREREADS[(n // 20 + 2 * v) % 5])
+    return execute(c, geom.CLOCKS[k], built, rots, pre), k, built, pre
+
+
 def random_case(rng, maxn):
     na, nb = rng.randint(1, maxn), rng.randint(1, maxn)
     style = rng.choice(["dense", "jitter", "gaps", "disjoint", "rates"])
@@ -129,14 +139,15 @@ def run(rep, tier, seed):
     builts = [("se3", "se3"), ("pq", "pq"), ("se3", "pq"), ("pq", "se3")]
     traces, by_id = [], {}
     nvar = 1 if tier == "quick" else 2
+    import evo.core.sync  # noqa: F401
+    jobs = []
     for n, c in enumerate(cases):
         for v in range(nvar):
-            k = (n + v * 3 + seed) % len(geom.CLOCKS)
+            jobs.append((n, v, c, seed))
+    outs = core.pmap(_exec_job, jobs, chunksize=500)
+    for (n, v, c, _), (o, k, built, pre) in zip(jobs, outs):
+        if True:
             clock = geom.CLOCKS[k]
-            built = builts[(n + v + seed) % 4]
-            rots = geom.O24[(n + seed) % 24:] + geom.O24[:(n + seed) % 24]
-            pre = (PREREADS[(n // 4 + v) % 5], PREREADS[(n // 20 + 2 * v) % 5])
-            o = execute(c, clock, built, rots, pre)
             tid = "m%d.%d" % (n, v)
             t = {"id": tid, "A": c["A"], "B": c["B"], "md": c["md"], "off": c["off"], "o": o}
             traces.append(t)
